@@ -105,4 +105,6 @@ func init() {
 		ruleInflIndent(p, r)
 		ruleInflCrumb(p, r, []string{"mxj.hasKeyPath", "x2jw.hasKeyPath"})
 	})
+
+	register("ESCt", "temporary", nil, ruleEsc)
 }
